@@ -180,10 +180,28 @@ def load_known():
     return known, fixed
 
 
+def guarded(fn, part, chunk, kw):
+    """
+    run one chunk; an exception escaping the oracle code (typically because the library returned something
+    malformed that the comparison could not even digest) is reported as a failure of the property, with the
+    innermost frames as its description, instead of crashing the run
+    """
+    import traceback
+
+    try:
+        fn(part, chunk, **kw)
+    except Exception as e:  # noqa: BLE001
+        tb = traceback.extract_tb(e.__traceback__)
+        where = ["%s:%s" % (os.path.basename(f.filename), f.name) for f in tb[-3:]]
+        part.fail("exception:%s:%s" % (type(e).__name__, where[-1] if where else "?"),
+                  "unhandled %s while checking: %s [%s]" % (type(e).__name__, str(e)[:160], " < ".join(reversed(where))),
+                  {"kind": "exception", "chunk": jsonable(chunk) if len(repr(chunk)) < 2000 else repr(chunk)[:2000]})
+
+
 def _call(args):
     fn, chunk, kw = args
     part = Part()
-    fn(part, chunk, **kw)
+    guarded(fn, part, chunk, kw)
     return part
 
 
@@ -222,7 +240,7 @@ class Ctx(Part):
         if nproc == 1 or os.environ.get("VERIF_SERIAL"):
             for c in chunks:
                 p = Part()
-                fn(p, c, **kw)
+                guarded(fn, p, c, kw)
                 self.merge(p)
             return
         with mp.get_context("fork").Pool(nproc) as pool:
